@@ -29,7 +29,7 @@ func enumLight(t *testing.T, prop, part string, progs []Case) {
 	maxSteps := envInt("VERIF_LIGHT_MAXSTEPS") // programs with a longer concurrent phase get bound 1 unless marked Deep
 	total, progsDone := 0, 0
 	for _, prog := range progs {
-		if os.Getenv("VERIF_TIER") != "thorough" && !prog.Deep {
+		if os.Getenv("VERIF_TIER") != "thorough" && !prog.Deep { // (wide programs: thorough tier only, about 30 000 episodes of 300 keys)
 			continue // quick tier: the other programs are enumerated at bound 1 on the real stack (part enum)
 		}
 		for rot := 0; rot < len(prog.Clients); rot++ {
@@ -45,6 +45,9 @@ func enumLight(t *testing.T, prop, part string, progs []Case) {
 			CountCands = nil
 			b := bound
 			if len(pre) > maxSteps && b > 1 && !p.Deep {
+				b = 1
+			}
+			if p.Wide {
 				b = 1
 			}
 			// with a bound >= 2 the forced switches go to working goroutines only (clients, busy workers);
